@@ -227,12 +227,18 @@ pub fn gen_side(r: &mut Xo, lo: usize, hi: usize, tune: &dyn Fn(&mut Xo, &mut MC
 }
 
 pub fn gen_case(r: &mut Xo, max_lines: usize, tune: &dyn Fn(&mut Xo, &mut MCfg)) -> SimCase {
-    let lines = gen_trace(r, max_lines);
-    let (client, server) = match r.below(4) {
+    let mut lines = gen_trace(r, max_lines);
+    // slow world (1 case in 8): the same shapes at a time scale 2^20 or 2^23 times coarser - trace gaps of
+    // hours to years, timeouts and durations of minutes up to the 24 h cap, i.e. beyond 2^32 microseconds
+    let mult: u64 = if r.chance(1, 8) { *r.pick(&[1u64 << 20, 1 << 23]) } else { 1 };
+    for l in lines.iter_mut() {
+        l.0 *= mult;
+    }
+    let (client, server) = crate::gen::with_time_mult(mult as f64, || match r.below(4) {
         0 => (gen_side(r, 1, 3, tune), vec![]),
         1 => (vec![], gen_side(r, 1, 3, tune)),
         _ => (gen_side(r, 1, 3, tune), gen_side(r, 1, 3, tune)),
-    };
+    });
     SimCase {
         lines,
         delay_ns: gen_delay(r),
